@@ -1,4 +1,5 @@
 import Ledger.Proofs.SqlMonad
+import Ledger.Proofs.SqlValues
 import Ledger.Generated.Schema
 import Ledger.Spec.Store
 
@@ -20,112 +21,149 @@ open Ledger Ledger.Sql Ledger.Generated Ledger.Core
 namespace Ledger.Sql
 
 /-- a row of `moves` (column order of `Schema.tbl_moves`) holding a Spec move of ledger `l` -/
-def mvVals (l : String) (m : Spec.MoveRow) : List Value :=
+def mvValsX (l : String) (m : Spec.MoveRow) (x : Value) : List Value :=
   [.int m.seq, .text l, .text m.account, .text m.asset, .int m.amount, .ts m.insertionDate, .ts m.effectiveDate,
    .row ["inputs", "outputs"] [.int m.pcv.input, .int m.pcv.output],
-   .row ["inputs", "outputs"] [.int m.pcev.input, .int m.pcev.output],
+   x,
    .bool m.isSource, .int m.txId]
+
+/-- the composite value of a `volumes` column -/
+def volVal (v : Volumes) : Value := .row ["inputs", "outputs"] [.int v.input, .int v.output]
+
+def mvVals (l : String) (m : Spec.MoveRow) : List Value := mvValsX l m (volVal m.pcev)
 
 def mvCols : List String := Schema.tbl_moves.cols.map (·.name)
 
 /-- the environment in which a row trigger on `moves` evaluates a query over `moves`: the scanned row,
-    then the PL variables (`found`), then NEW -/
-def trigEnv (lm : String) (m : Spec.MoveRow) (ln : String) (n : Spec.MoveRow) (found : Bool) (rest : List Scope)
+    then the PL variables (`found`), then NEW (values `nv`) -/
+def trigEnvV (lm : String) (m : Spec.MoveRow) (nv : List Value) (found : Bool) (rest : List Scope)
     (src : Option (String × Nat) := none) : Env :=
   { locals := [{ alias := "moves", cols := mvCols, vals := mvVals lm m, src := src }],
-    outer := [{ alias := "", cols := ["found"], vals := [.bool found] }, { alias := "new", cols := mvCols, vals := mvVals ln n }] ++ rest }
+    outer := [{ alias := "", cols := ["found"], vals := [.bool found] }, { alias := "new", cols := mvCols, vals := nv }] ++ rest }
 
-theorem cmpInt_lt (x y : Int) : (cmpInt x y == Ordering.lt) = decide (x < y) := by
-  unfold cmpInt
-  by_cases h : x < y
-  · simp [h]
-  · by_cases e : x = y <;> simp [h, e]
-
-theorem cmpInt_eq (x y : Int) : (cmpInt x y == Ordering.eq) = decide (x = y) := by
-  unfold cmpInt
-  by_cases h : x < y
-  · have : x ≠ y := by omega
-    simp [h, this]
-  · by_cases e : x = y <;> simp [h, e]
-
-theorem cmpInt_gt (x y : Int) : (cmpInt x y == Ordering.gt) = decide (y < x) := by
-  unfold cmpInt
-  by_cases h : x < y
-  · have : ¬ y < x := by omega
-    simp [h, this]
-  · by_cases e : x = y
-    · subst e; simp
-    · have : y < x := by omega
-      simp [h, e, this]
-
-theorem cmpStr_eq' (x y : String) : (cmpStr x y == Ordering.eq) = decide (x = y) := by
-  unfold cmpStr
-  by_cases h : x < y
-  · have : x ≠ y := by intro e; subst e; exact String.lt_irrefl _ h
-    simp [h, this]
-  · by_cases e : x = y <;> simp [h, e]
-
-theorem evalBinop_eq_text (a b : String) : evalBinop .eq (.text a) (.text b) = .ok (.bool (decide (a = b))) := by
-  simp [evalBinop, compareValues, compareScalar, ofTruth, cmpStr_eq']
-  rfl
-theorem evalBinop_eq_ts (a b : Int) : evalBinop .eq (.ts a) (.ts b) = .ok (.bool (decide (a = b))) := by
-  simp [evalBinop, compareValues, compareScalar, ofTruth, cmpInt_eq]
-  rfl
-theorem evalBinop_lt_ts (a b : Int) : evalBinop .lt (.ts a) (.ts b) = .ok (.bool (decide (a < b))) := by
-  simp [evalBinop, compareValues, compareScalar, ofTruth, cmpInt_lt]
-  rfl
-theorem evalBinop_gt_ts (a b : Int) : evalBinop .gt (.ts a) (.ts b) = .ok (.bool (decide (b < a))) := by
-  simp [evalBinop, compareValues, compareScalar, ofTruth, cmpInt_gt]
-  rfl
-theorem evalBinop_lt_int (a b : Int) : evalBinop .lt (.int a) (.int b) = .ok (.bool (decide (a < b))) := by
-  simp [evalBinop, compareValues, compareScalar, ofTruth, cmpInt_lt]
-  rfl
-theorem evalBinop_eq_int (a b : Int) : evalBinop .eq (.int a) (.int b) = .ok (.bool (decide (a = b))) := by
-  simp [evalBinop, compareValues, compareScalar, ofTruth, cmpInt_eq]
-  rfl
-theorem truth_bool (b : Bool) : (Value.bool b).truth = .ok (some b) := rfl
+def trigEnv (lm : String) (m : Spec.MoveRow) (ln : String) (n : Spec.MoveRow) (found : Bool) (rest : List Scope)
+    (src : Option (String × Nat) := none) : Env := trigEnvV lm m (mvVals ln n) found rest src
 
 theorem lastComponent_new : lastComponent "new" = "new" := by decide
 
 /-- an unqualified column of `moves` resolves to the scanned row -/
-theorem lookup_moves_col (lm : String) (m : Spec.MoveRow) (ln : String) (n : Spec.MoveRow) (found : Bool) (rest : List Scope) (c : String)
+theorem lookup_moves_colV (lm : String) (m : Spec.MoveRow) (nv : List Value) (found : Bool) (rest : List Scope) (c : String)
     (v : Value) (h : lookupIn mvCols (mvVals lm m) c = some v) (src : Option (String × Nat) := none) :
-    lookupColumn (trigEnv lm m ln n found rest src) "" c = .ok v := by
-  simp [lookupColumn, Env.scopes, trigEnv, lookupUnqualified, h]
+    lookupColumn (trigEnvV lm m nv found rest src) "" c = .ok v := by
+  simp [lookupColumn, Env.scopes, trigEnvV, lookupUnqualified, h]
   rfl
 
 /-- `new.c` resolves to NEW -/
-theorem lookup_new_col (lm : String) (m : Spec.MoveRow) (ln : String) (n : Spec.MoveRow) (found : Bool) (rest : List Scope) (c : String)
-    (v : Value) (h : lookupIn mvCols (mvVals ln n) c = some v) (src : Option (String × Nat) := none) :
-    lookupColumn (trigEnv lm m ln n found rest src) "new" c = .ok v := by
+theorem lookup_new_colV (lm : String) (m : Spec.MoveRow) (nv : List Value) (found : Bool) (rest : List Scope) (c : String)
+    (v : Value) (h : lookupIn mvCols nv c = some v) (src : Option (String × Nat) := none) :
+    lookupColumn (trigEnvV lm m nv found rest src) "new" c = .ok v := by
   have e1 : ("moves" == "new") = false := by decide
   have e2 : ("" == "new") = false := by decide
-  simp [lookupColumn, Env.scopes, trigEnv, findScope, lastComponent_new, h, e1, e2]
+  simp [lookupColumn, Env.scopes, trigEnvV, findScope, lastComponent_new, h, e1, e2]
   rfl
+
+theorem lookup_moves_col (lm : String) (m : Spec.MoveRow) (ln : String) (n : Spec.MoveRow) (found : Bool) (rest : List Scope) (c : String)
+    (v : Value) (h : lookupIn mvCols (mvVals lm m) c = some v) (src : Option (String × Nat) := none) :
+    lookupColumn (trigEnv lm m ln n found rest src) "" c = .ok v := lookup_moves_colV lm m _ found rest c v h src
+
+theorem lookup_new_col (lm : String) (m : Spec.MoveRow) (ln : String) (n : Spec.MoveRow) (found : Bool) (rest : List Scope) (c : String)
+    (v : Value) (h : lookupIn mvCols (mvVals ln n) c = some v) (src : Option (String × Nat) := none) :
+    lookupColumn (trigEnv lm m ln n found rest src) "new" c = .ok v := lookup_new_colV lm m _ found rest c v h src
 
 /-- the environment of the PL body of a row trigger on `moves`: the PL variables, then NEW -/
-def plEnv (ln : String) (n : Spec.MoveRow) (found : Bool) (rest : List Scope) : Env :=
+def plEnvV (nv : List Value) (found : Bool) (rest : List Scope) : Env :=
   { locals := [],
-    outer := [{ alias := "", cols := ["found"], vals := [.bool found] }, { alias := "new", cols := mvCols, vals := mvVals ln n }] ++ rest }
+    outer := [{ alias := "", cols := ["found"], vals := [.bool found] }, { alias := "new", cols := mvCols, vals := nv }] ++ rest }
 
-theorem lookup_new_col_pl (ln : String) (n : Spec.MoveRow) (found : Bool) (rest : List Scope) (c : String)
-    (v : Value) (h : lookupIn mvCols (mvVals ln n) c = some v) :
-    lookupColumn (plEnv ln n found rest) "new" c = .ok v := by
+def plEnv (ln : String) (n : Spec.MoveRow) (found : Bool) (rest : List Scope) : Env := plEnvV (mvVals ln n) found rest
+
+theorem lookup_new_col_plV (nv : List Value) (found : Bool) (rest : List Scope) (c : String)
+    (v : Value) (h : lookupIn mvCols nv c = some v) :
+    lookupColumn (plEnvV nv found rest) "new" c = .ok v := by
   have e2 : ("" == "new") = false := by decide
-  simp [lookupColumn, Env.scopes, plEnv, findScope, lastComponent_new, h, e2]
+  simp [lookupColumn, Env.scopes, plEnvV, findScope, lastComponent_new, h, e2]
   rfl
 
-theorem evalBinop_add_int (a b : Int) : evalBinop .add (.int a) (.int b) = .ok (.int (a + b)) := by
-  simp [evalBinop, Value.isNull]
-  rfl
-
-/-- `set_effective_volumes`, expression by expression, for ANY scanned row `m` (of ledger `lm`) and ANY
+/-- `set_effective_volumes`, expression by expression (`setEffective_all` below), for ANY scanned row `m` (of ledger `lm`) and ANY
     NEW row `n` (of ledger `ln`):
     * the query is `SELECT item FROM moves WHERE wher ORDER BY effective_date DESC, seq DESC LIMIT 1`,
       wrapped in `coalesce(…, dflt)` and assigned to `new.post_commit_effective_volumes`;
     * `wher` holds iff `m` has NEW's account, asset and ledger and is strictly before NEW in
       (effective_date, seq) order — `Spec.MoveRow.before`;
-    * `item` is `m`'s effective volumes plus NEW's delta; `dflt` is NEW's delta. -/
+    * `item` is `m`'s effective volumes plus NEW's delta; `dflt` is NEW's delta.
+
+    the assignment of `set_effective_volumes` is `new.post_commit_effective_volumes := coalesce((select item from moves where wher
+    order by effective_date desc, seq desc limit 1), dflt)` -/
+def setEffBody (item wher dflt_ : Expr) : List PlStmt :=
+  [PlStmt.assign (PlTarget.field "new" "post_commit_effective_volumes")
+    (Expr.call "" "coalesce" [Expr.subq (Query.mk [] (SetExpr.select (Select.mk false [] [SelItem.expr item ""] [FromItem.table "" "moves" ""] (some wher) [] none))
+        [OrderItem.mk (Expr.col "" "effective_date") true NullsOrder.dflt, OrderItem.mk (Expr.col "" "seq") true NullsOrder.dflt]
+        (some (Expr.int 1)) none LockMode.none), dflt_]),
+   PlStmt.ret (some (Expr.col "" "new"))]
+
+/-- what `wher`, `item` and `dflt` of `set_effective_volumes` mean, on ANY scanned row and ANY NEW row (whatever its
+    `post_commit_effective_volumes`, which is what the trigger computes) -/
+structure SetEffSem (item wher dflt_ : Expr) : Prop where
+  hwher : ∀ (cb : Callbacks) (te : TypeEnv) (lm ln : String) (m n : Spec.MoveRow) (x : Value) (found : Bool) (rest : List Scope)
+    (src : Option (String × Nat)) (s : St),
+    (evalExpr cb te (trigEnvV lm m (mvValsX ln n x) found rest src) wher).exec s =
+      (.ok (.bool (decide (m.account = n.account ∧ m.asset = n.asset ∧ lm = ln) && m.before n)), s)
+  hitem : ∀ (cb : Callbacks) (te : TypeEnv) (lm ln : String) (m n : Spec.MoveRow) (x : Value) (found : Bool) (rest : List Scope)
+    (src : Option (String × Nat)) (s : St),
+    (evalExpr cb te (trigEnvV lm m (mvValsX ln n x) found rest src) item).exec s =
+      (.ok (.row [] [.int (m.pcev.add n.delta).input, .int (m.pcev.add n.delta).output]), s)
+  hdflt : ∀ (cb : Callbacks) (te : TypeEnv) (ln : String) (n : Spec.MoveRow) (x : Value) (found : Bool) (rest : List Scope) (s : St),
+    (evalExpr cb te (plEnvV (mvValsX ln n x) found rest) dflt_).exec s =
+      (.ok (.row [] [.int n.delta.input, .int n.delta.output]), s)
+  hitemAgg : item.hasAgg = false
+  hitemWin : Expr.winsList [item] = []
+
+theorem setEffective_all : ∃ (item wher dflt_ : Expr),
+    Schema.fn_set_effective_volumes.body = setEffBody item wher dflt_ ∧ SetEffSem item wher dflt_ := by
+  refine ⟨_, _, _, rfl, ⟨?_, ?_, ?_, by decide, by decide⟩⟩
+  · intro cb te lm ln m n x found rest src s
+    have c1 := lookup_moves_colV lm m (mvValsX ln n x) found rest "accounts_address" (.text m.account) rfl src
+    have c2 := lookup_moves_colV lm m (mvValsX ln n x) found rest "asset" (.text m.asset) rfl src
+    have c3 := lookup_moves_colV lm m (mvValsX ln n x) found rest "ledger" (.text lm) rfl src
+    have c4 := lookup_moves_colV lm m (mvValsX ln n x) found rest "effective_date" (.ts m.effectiveDate) rfl src
+    have c5 := lookup_moves_colV lm m (mvValsX ln n x) found rest "seq" (.int m.seq) rfl src
+    have n1 := lookup_new_colV lm m (mvValsX ln n x) found rest "accounts_address" (.text n.account) rfl src
+    have n2 := lookup_new_colV lm m (mvValsX ln n x) found rest "asset" (.text n.asset) rfl src
+    have n3 := lookup_new_colV lm m (mvValsX ln n x) found rest "ledger" (.text ln) rfl src
+    have n4 := lookup_new_colV lm m (mvValsX ln n x) found rest "effective_date" (.ts n.effectiveDate) rfl src
+    have n5 := lookup_new_colV lm m (mvValsX ln n x) found rest "seq" (.int n.seq) rfl src
+    simp only [evalExpr, exec_bind, c1, c2, c3, c4, c5, n1, n2, n3, n4, n5, exec_liftR_ok, evalBinop_eq_text, truth_bool, Spec.MoveRow.before]
+    by_cases h1 : m.account = n.account <;> by_cases h2 : m.asset = n.asset <;> by_cases h3 : lm = ln <;>
+      by_cases h4 : m.effectiveDate < n.effectiveDate <;> by_cases h5 : m.effectiveDate = n.effectiveDate <;>
+      by_cases h6 : m.seq < n.seq <;>
+      simp [h1, h2, h3, h4, h5, h6, ofTruth, and3, or3, truth_bool, exec_bind, evalBinop_eq_text, evalBinop_eq_ts,
+        evalBinop_lt_ts, evalBinop_lt_int]
+  · intro cb te lm ln m n x found rest src s
+    have c6 := lookup_moves_colV lm m (mvValsX ln n x) found rest "post_commit_effective_volumes" (.row ["inputs", "outputs"] [.int m.pcev.input, .int m.pcev.output]) rfl src
+    have n6 := lookup_new_colV lm m (mvValsX ln n x) found rest "is_source" (.bool n.isSource) rfl src
+    have n7 := lookup_new_colV lm m (mvValsX ln n x) found rest "amount" (.int n.amount) rfl src
+    simp only [evalExpr, evalExprs, exec_bind, c6, n6, n7, exec_liftR_ok, truth_bool, rowField, lookupIn]
+    cases hsrc : n.isSource <;>
+      simp [exec_bind, evalBinop_add_int, Spec.MoveRow.delta, Volumes.add, hsrc, truth_bool, lookupIn, rowField, n7]
+  · intro cb te ln n x found rest s
+    have n6 := lookup_new_col_plV (mvValsX ln n x) found rest "is_source" (.bool n.isSource) rfl
+    have n7 := lookup_new_col_plV (mvValsX ln n x) found rest "amount" (.int n.amount) rfl
+    simp only [evalExpr, evalExprs, exec_bind, n6, n7, exec_liftR_ok, truth_bool]
+    cases hsrc : n.isSource <;> simp [exec_bind, Spec.MoveRow.delta, hsrc, truth_bool, n7]
+
+theorem setEffective_exprsX (cb : Callbacks) (te : TypeEnv) (lm ln : String) (m n : Spec.MoveRow) (x : Value) (found : Bool) (rest : List Scope)
+    (src : Option (String × Nat)) (s : St) :
+    ∃ (item wher dflt_ : Expr),
+      Schema.fn_set_effective_volumes.body = setEffBody item wher dflt_ ∧
+      (evalExpr cb te (trigEnvV lm m (mvValsX ln n x) found rest src) wher).exec s =
+        (.ok (.bool (decide (m.account = n.account ∧ m.asset = n.asset ∧ lm = ln) && m.before n)), s) ∧
+      (evalExpr cb te (trigEnvV lm m (mvValsX ln n x) found rest src) item).exec s =
+        (.ok (.row [] [.int (m.pcev.add n.delta).input, .int (m.pcev.add n.delta).output]), s) ∧
+      (evalExpr cb te (plEnvV (mvValsX ln n x) found rest) dflt_).exec s =
+        (.ok (.row [] [.int n.delta.input, .int n.delta.output]), s) := by
+  obtain ⟨item, wher, dflt_, hb, h⟩ := setEffective_all
+  exact ⟨item, wher, dflt_, hb, h.hwher .., h.hitem .., h.hdflt ..⟩
+
 theorem setEffective_exprs (cb : Callbacks) (te : TypeEnv) (lm ln : String) (m n : Spec.MoveRow) (found : Bool) (rest : List Scope) (s : St) :
     ∃ (item wher dflt_ : Expr),
       Schema.fn_set_effective_volumes.body =
@@ -139,35 +177,8 @@ theorem setEffective_exprs (cb : Callbacks) (te : TypeEnv) (lm ln : String) (m n
       (evalExpr cb te (trigEnv lm m ln n found rest) item).exec s =
         (.ok (.row [] [.int (m.pcev.add n.delta).input, .int (m.pcev.add n.delta).output]), s) ∧
       (evalExpr cb te (plEnv ln n found rest) dflt_).exec s =
-        (.ok (.row [] [.int n.delta.input, .int n.delta.output]), s) := by
-  refine ⟨_, _, _, rfl, ?_, ?_, ?_⟩
-  · have c1 := lookup_moves_col lm m ln n found rest "accounts_address" (.text m.account) rfl
-    have c2 := lookup_moves_col lm m ln n found rest "asset" (.text m.asset) rfl
-    have c3 := lookup_moves_col lm m ln n found rest "ledger" (.text lm) rfl
-    have c4 := lookup_moves_col lm m ln n found rest "effective_date" (.ts m.effectiveDate) rfl
-    have c5 := lookup_moves_col lm m ln n found rest "seq" (.int m.seq) rfl
-    have n1 := lookup_new_col lm m ln n found rest "accounts_address" (.text n.account) rfl
-    have n2 := lookup_new_col lm m ln n found rest "asset" (.text n.asset) rfl
-    have n3 := lookup_new_col lm m ln n found rest "ledger" (.text ln) rfl
-    have n4 := lookup_new_col lm m ln n found rest "effective_date" (.ts n.effectiveDate) rfl
-    have n5 := lookup_new_col lm m ln n found rest "seq" (.int n.seq) rfl
-    simp only [evalExpr, exec_bind, c1, c2, c3, c4, c5, n1, n2, n3, n4, n5, exec_liftR_ok, evalBinop_eq_text, truth_bool, Spec.MoveRow.before]
-    by_cases h1 : m.account = n.account <;> by_cases h2 : m.asset = n.asset <;> by_cases h3 : lm = ln <;>
-      by_cases h4 : m.effectiveDate < n.effectiveDate <;> by_cases h5 : m.effectiveDate = n.effectiveDate <;>
-      by_cases h6 : m.seq < n.seq <;>
-      simp [h1, h2, h3, h4, h5, h6, ofTruth, and3, or3, truth_bool, exec_bind, evalBinop_eq_text, evalBinop_eq_ts,
-        evalBinop_lt_ts, evalBinop_lt_int]
-  · have c6 := lookup_moves_col lm m ln n found rest "post_commit_effective_volumes" (.row ["inputs", "outputs"] [.int m.pcev.input, .int m.pcev.output]) rfl
-    have n6 := lookup_new_col lm m ln n found rest "is_source" (.bool n.isSource) rfl
-    have n7 := lookup_new_col lm m ln n found rest "amount" (.int n.amount) rfl
-    simp only [evalExpr, evalExprs, exec_bind, c6, n6, n7, exec_liftR_ok, truth_bool, rowField, lookupIn]
-    cases hsrc : n.isSource <;>
-      simp [exec_bind, evalBinop_add_int, Spec.MoveRow.delta, Volumes.add, hsrc, truth_bool, lookupIn, rowField, n7]
-  · have n6 := lookup_new_col_pl ln n found rest "is_source" (.bool n.isSource) rfl
-    have n7 := lookup_new_col_pl ln n found rest "amount" (.int n.amount) rfl
-    simp only [evalExpr, evalExprs, exec_bind, n6, n7, exec_liftR_ok, truth_bool]
-    cases hsrc : n.isSource <;> simp [exec_bind, Spec.MoveRow.delta, hsrc, truth_bool, n7]
-
+        (.ok (.row [] [.int n.delta.input, .int n.delta.output]), s) :=
+  setEffective_exprsX cb te lm ln m n _ found rest none s
 
 /-- `update_effective_volumes`, expression by expression, for ANY target row `m` and ANY NEW row `n`:
     the body is `UPDATE moves SET post_commit_effective_volumes = setE WHERE wher` (no FROM, no
